@@ -264,7 +264,7 @@ Proof.
 Qed.
 
 Lemma xls_lbl_enc : forall d, wf_lbl d = true ->
-  xls_lbl (enc_lbl d) = do f <- parse_defined_names (lb_rgce d); Ok (lb_name d, f).
+  xls_lbl (enc_lbl d) = do f <- parse_defined_names (lb_rgce d); Ok (lb_name d, (f, lb_rgce d)).
 Proof.
   intros d Hwf. unfold wf_lbl in Hwf.
   apply andb_prop in Hwf. destruct Hwf as [Hwf Hce]. apply andb_prop in Hwf. destruct Hwf as [Hwf Hnm].
@@ -290,7 +290,7 @@ Proof.
     replace (14 + (length str + length (lb_rgce d)) - length (lb_rgce d))%nat
       with (length (firstn 14 data ++ str)) by (rewrite app_length; cbn [firstn length data]; lia).
     rewrite app_assoc. apply skipn_app_len. }
-  rewrite Hsk.
+  cbv zeta. rewrite Hsk.
   assert (Hname : unicode_no_cch (str ++ lb_rgce d) (N.to_nat cch) = lb_name d).
   { unfold str, cch. destruct (lb_wide d); apply andb_prop in Hnm; destruct Hnm as [Hs _]; rewrite Nat2N.id.
     - apply unicode_no_cch_wide. exact Hs.
@@ -373,31 +373,98 @@ Proof.
     injection H as <-. cbn [map fst]. rewrite (IH r' eq_refl). reflexivity.
 Qed.
 
-Theorem defined_names_in_order_xls : forall sheets gs names xtis, forallb wf_grec gs = true ->
-  xls_read_names sheets (map enc_grec gs) = Ok (names, xtis) ->
-  map fst names = map lb_name (lbls_of gs) /\ xtis = xtis_of gs.
+Lemma map_o_final_fst : forall show_f64 sheets xtis nms (l : list raw_name) r,
+  map_o (xls_final_name show_f64 sheets xtis nms) l = Ok r -> map fst r = map fst l.
 Proof.
-  intros sheets gs names xtis Hwf H. unfold xls_read_names in H.
-  rewrite xls_globals_spec in H by exact Hwf.
-  destruct (spec_lbls (lbls_of gs)) as [r|c| |] eqn:E; cbn [obind fst snd app] in H; try discriminate.
-  injection H as <- <-. split; [|reflexivity].
-  rewrite map_map. cbn [fst]. apply spec_lbls_fst. exact E.
+  intros show_f64 sheets xtis nms. induction l as [|n t IH]; intros r H.
+  - cbn in H. injection H as <-. reflexivity.
+  - cbn [map_o] in H. unfold xls_final_name at 1 in H.
+    destruct (xls_parse_formula show_f64 _ _) as [full|c| |]; cbn [obind] in H; try discriminate;
+      destruct (map_o (xls_final_name show_f64 sheets xtis nms) t) as [r'|c'| |]; cbn [obind] in H; try discriminate;
+      injection H as <-; cbn [map fst]; rewrite (IH r' eq_refl); reflexivity.
 Qed.
 
-Theorem name_index_stable_xls : forall sheets gs names xtis i d, forallb wf_grec gs = true ->
-  xls_read_names sheets (map enc_grec gs) = Ok (names, xtis) ->
+Lemma map_o_nth : forall (A B : Type) (f : A -> outcome B) l r i x,
+  map_o f l = Ok r -> nth_error l i = Some x -> exists y, f x = Ok y /\ nth_error r i = Some y.
+Proof.
+  intros A B f. induction l as [|a t IH]; intros r i x H Hn; [destruct i; discriminate|].
+  cbn [map_o] in H. destruct (f a) as [y|c| |] eqn:Ea; cbn [obind] in H; try discriminate.
+  destruct (map_o f t) as [r'|c| |] eqn:Et; cbn [obind] in H; try discriminate. injection H as <-.
+  destruct i as [|i]; cbn [nth_error] in *.
+  - injection Hn as <-. exists y. split; [exact Ea|reflexivity].
+  - apply (IH r' i x eq_refl Hn).
+Qed.
+
+(* what xls_read_names does on an encoded globals substream *)
+Lemma xls_read_names_unfold : forall show_f64 sheets gs names xtis, forallb wf_grec gs = true ->
+  xls_read_names show_f64 sheets (map enc_grec gs) = Ok (names, xtis) ->
+  exists raw, spec_lbls (lbls_of gs) = Ok raw /\ xtis = xtis_of gs /\
+    map_o (xls_final_name show_f64 sheets (xtis_of gs) (map fst raw)) raw = Ok names.
+Proof.
+  intros show_f64 sheets gs names xtis Hwf H. unfold xls_read_names in H.
+  rewrite xls_globals_spec in H by exact Hwf.
+  destruct (spec_lbls (lbls_of gs)) as [raw|c| |] eqn:E; cbn [obind fst snd app] in H; try discriminate.
+  destruct (map_o _ raw) as [l|c| |] eqn:El; cbn [obind] in H; try discriminate.
+  injection H as <- <-. exists raw. repeat split. exact El.
+Qed.
+
+Theorem defined_names_in_order_xls : forall show_f64 sheets gs names xtis, forallb wf_grec gs = true ->
+  xls_read_names show_f64 sheets (map enc_grec gs) = Ok (names, xtis) ->
+  map fst names = map lb_name (lbls_of gs) /\ xtis = xtis_of gs.
+Proof.
+  intros show_f64 sheets gs names xtis Hwf H.
+  destruct (xls_read_names_unfold _ _ _ Hwf H) as (raw & Er & Ex & El).
+  split; [|exact Ex]. rewrite (map_o_final_fst _ _ _ _ _ El). apply spec_lbls_fst. exact Er.
+Qed.
+
+Lemma spec_lbls_nth : forall ds raw i d, spec_lbls ds = Ok raw -> nth_error ds i = Some d ->
+  exists f, nth_error raw i = Some (lb_name d, (f, lb_rgce d)).
+Proof.
+  induction ds as [|a t IH]; intros raw i d H Hn; [destruct i; discriminate|].
+  cbn [spec_lbls] in H. destruct (parse_defined_names (lb_rgce a)) as [f|c| |]; cbn [obind] in H; try discriminate.
+  destruct (spec_lbls t) as [r'|c| |] eqn:Et; cbn [obind] in H; try discriminate. injection H as <-.
+  destruct i as [|i]; cbn [nth_error] in *.
+  - injection Hn as <-. eauto.
+  - apply (IH r' i d eq_refl Hn).
+Qed.
+
+(* the reported text of a defined name is the A1 rendering of its whole formula: for every Lbl
+   record whose formula encodes a well-formed AST (against the sheets, ALL names of the file and
+   the concatenated XTI table) — any grammar construct, names defined through other names
+   (stored before or after it) included.  Former known class K_XLS_NAME_FORMULA, repaired by the
+   commit "xls defined names other than a single 3-D reference …". *)
+Theorem defined_name_text_is_render_xls : forall show_f64 sheets gs names xtis i d e,
+  forallb wf_grec gs = true ->
+  xls_read_names show_f64 sheets (map enc_grec gs) = Ok (names, xtis) ->
+  nth_error (lbls_of gs) i = Some d -> lb_rgce d = encode_xls e ->
+  N.of_nat (length (encode_xls e)) < 65536 ->
+  let env := {| xe_sheets := sheets; xe_names := map lb_name (lbls_of gs); xe_xtis := xtis_of gs |} in
+  wf_xls env e = true ->
+  nth_error names i = Some (lb_name d, render_xls show_f64 env e).
+Proof.
+  intros show_f64 sheets gs names xtis i d e Hwf H Hn Hr Hlen env Hwe.
+  destruct (xls_read_names_unfold _ _ _ Hwf H) as (raw & Er & Ex & El).
+  destruct (spec_lbls_nth _ _ Er Hn) as [f Hraw].
+  destruct (@map_o_nth _ _ _ _ _ _ _ El Hraw) as [y [Ey Hy]]. rewrite Hy. f_equal.
+  unfold xls_final_name in Ey. cbn [fst snd] in Ey.
+  rewrite (spec_lbls_fst _ Er), Hr in Ey.
+  fold env in Ey. rewrite (@rpn_correct_xls show_f64 env e Hwe Hlen) in Ey. injection Ey as <-. reflexivity.
+Qed.
+
+Theorem name_index_stable_xls : forall show_f64 sheets gs names xtis i d, forallb wf_grec gs = true ->
+  xls_read_names show_f64 sheets (map enc_grec gs) = Ok (names, xtis) ->
   nth_error (lbls_of gs) i = Some d ->
   spec_name (map fst names) (N.of_nat i + 1) = lb_name d.
 Proof.
-  intros sheets gs names xtis i d Hwf H Hn.
-  destruct (defined_names_in_order_xls sheets gs Hwf H) as [Hm _].
+  intros show_f64 sheets gs names xtis i d Hwf H Hn.
+  destruct (defined_names_in_order_xls _ _ _ Hwf H) as [Hm _].
   unfold spec_name. replace (N.of_nat i + 1 - 1) with (N.of_nat i) by lia.
   rewrite nthN_nth_error, Hm, nth_error_map, Hn. reflexivity.
 Qed.
 
 Theorem ptgname_is_ith_record_xls : forall show_f64 sheets gs names xtis i d k,
   forallb wf_grec gs = true ->
-  xls_read_names sheets (map enc_grec gs) = Ok (names, xtis) ->
+  xls_read_names show_f64 sheets (map enc_grec gs) = Ok (names, xtis) ->
   nth_error (lbls_of gs) i = Some d -> N.of_nat i + 1 < 4294967296 ->
   xls_parse_formula show_f64 {| xe_sheets := sheets; xe_names := map fst names; xe_xtis := xtis |}
     (frame_xls (encode_xls (EName k (N.of_nat i + 1)))) = Ok (lb_name d).
@@ -406,7 +473,7 @@ Proof.
   rewrite rpn_correct_xls.
   - unfold render_xls. cbn [render xe_names]. f_equal. eapply name_index_stable_xls; eassumption.
   - unfold wf_xls. cbn [wf xe_names].
-    destruct (defined_names_in_order_xls sheets gs Hwf H) as [Hm _].
+    destruct (defined_names_in_order_xls _ _ _ Hwf H) as [Hm _].
     assert (Hlen : length (map fst names) = length (lbls_of gs)) by (rewrite Hm, map_length; reflexivity).
     assert (Hlt : (i < length (lbls_of gs))%nat) by (apply nth_error_Some; rewrite Hn; discriminate).
     rewrite Hlen.
@@ -416,14 +483,14 @@ Qed.
 
 (* a 3-D token's sheet is the itabFirst-th sheet of the ixti-th XTI of the file (all EXTERNSHEET
    records concatenated) — not the ixti-th sheet *)
-Theorem sheet3d_through_xti_xls : forall sheets gs names xtis i x nm, forallb wf_grec gs = true ->
-  xls_read_names sheets (map enc_grec gs) = Ok (names, xtis) ->
+Theorem sheet3d_through_xti_xls : forall show_f64 sheets gs names xtis i x nm, forallb wf_grec gs = true ->
+  xls_read_names show_f64 sheets (map enc_grec gs) = Ok (names, xtis) ->
   nth_error (xtis_of gs) i = Some x -> snd (fst x) < 32768 ->
   spec_sheet_xls {| xe_sheets := sheets; xe_names := nm; xe_xtis := xtis |} (N.of_nat i)
   = match nthN sheets (snd (fst x)) with Some s => s | None => lit "#REF" end.
 Proof.
-  intros sheets gs names xtis i x nm Hwf H Hn Hx.
-  destruct (defined_names_in_order_xls sheets gs Hwf H) as [_ Hxt]. subst xtis.
+  intros show_f64 sheets gs names xtis i x nm Hwf H Hn Hx.
+  destruct (defined_names_in_order_xls _ _ _ Hwf H) as [_ Hxt]. subst xtis.
   unfold spec_sheet_xls. cbn [xe_xtis xe_sheets]. rewrite nthN_nth_error, Hn.
   destruct x as [[a b] c]. cbn [fst snd] in *. apply N.ltb_lt in Hx. rewrite Hx. reflexivity.
 Qed.
@@ -498,59 +565,26 @@ Definition ex_globals : list grec :=
 
 Example xls_names_nonvacuous :
   forallb wf_grec ex_globals = true /\
-  xls_read_names [lit "S1"; lit "S2"] (map enc_grec ex_globals)
+  xls_read_names (fun _ => []) [lit "S1"; lit "S2"] (map enc_grec ex_globals)
   = Ok ([([13], lit "S2!$A$1:$C$10"); ([26085; 128512], lit "S1!$AB$5")], [(0, 1, 1); (0, 0, 0)]).
 Proof. vm_compute. repeat split. Qed.
 
-(* ---------- known class K_XLS_NAME_FORMULA: parse_defined_names looks at one token only; anything
-   but a single 3-D reference token gets a placeholder text.  (Commit 2c35987 repaired the other
-   half of the class: relative components are now rendered like in cell formulas.) ---------- *)
-Definition known_xls_name (rgce : list N) : option N :=
-  match rgce with
-  | ptg :: _ =>
-      if ((ptg =? 0x3a) || (ptg =? 0x5a) || (ptg =? 0x7a)) && (length rgce =? 7)%nat then None
-      else if ((ptg =? 0x3b) || (ptg =? 0x5b) || (ptg =? 0x7b)) && (length rgce =? 11)%nat then None
-      else if ((ptg =? 0x3c) || (ptg =? 0x5c) || (ptg =? 0x7c)) && (length rgce =? 7)%nat then None
-      else if ((ptg =? 0x3d) || (ptg =? 0x5d) || (ptg =? 0x7d)) && (length rgce =? 11)%nat then None
-      else Some 1
-  | [] => Some 1
-  end.
-
-(* outside the class the text is the A1 rendering of the reference, whatever its flags *)
-Theorem xls_name_ref3d : forall sheets xtis k ixti a,
-  ixti < 65536 -> wf_cref 65536 a = true ->
-  let e := ERef3d k ixti a in
-  let env := {| xe_sheets := sheets; xe_names := []; xe_xtis := xtis |} in
-  known_xls_name (encode_xls e) = None /\
-  omap (xls_name_text sheets xtis) (parse_defined_names (encode_xls e)) = Ok (render_xls (fun _ => []) env e).
-Proof.
-  intros sheets xtis k ixti a Hi Ha e env.
-  destruct (wf_cref_bounds _ _ Ha) as (Hr & Hc & Hf).
-  assert (Henc : encode_xls e = cls_ptg 0x3a 0x5a 0x7a k :: le 2 ixti ++ le 2 (cr_row a) ++ le 2 (cfield a)).
-  { unfold e, encode_xls. cbn [encode]. reflexivity. }
-  rewrite Henc. cbn [le app].
-  split.
-  - destruct k; reflexivity.
-  - pose proof (@push_cell_ref_spec (cr_row a) (cr_col a) (cr_row_rel a) (cr_col_rel a) [] Hc) as Hp.
-    destruct k; cbn [cls_ptg parse_defined_names defined_name_expected N.eqb Pos.eqb orb length Nat.ltb Nat.leb u16_at skipn obind];
-      rewrite !le2_eq by lia; cbn [obind]; unfold cfield; rewrite Hp by (change (2 ^ 32) with 4294967296; lia);
-      cbn [obind omap app];
-      unfold xls_name_text, render_xls; cbn [fst snd render render_cref];
-      unfold spec_sheet_xls, sheet_name_xls, env; cbn [xe_xtis xe_sheets];
-      rewrite <- ?app_assoc; reflexivity.
-Qed.
-
-(* inside the class: a name defined by a constant *)
-Theorem refuted_xls_name_formula :
-  let env := {| xe_sheets := [lit "S"]; xe_names := []; xe_xtis := [(0, 0, 0)] |} in
-  let e1 := ERef3d CRef 0 {| cr_row := 1; cr_col := 1; cr_row_rel := false; cr_col_rel := true |} in
-  let e2 := EInt 7 in
-  (* the relative reference is rendered correctly since 2c35987 *)
-  known_xls_name (encode_xls e1) = None /\
-  omap (xls_name_text [lit "S"] [(0, 0, 0)]) (parse_defined_names (encode_xls e1)) = Ok (lit "S!B$2") /\
-  wf_xls env e2 = true /\ known_xls_name (encode_xls e2) = Some 1 /\
-  render_xls (fun _ => []) env e2 = lit "7" /\
-  omap (xls_name_text [lit "S"] [(0, 0, 0)]) (parse_defined_names (encode_xls e2)) = Ok (lit "Unsupported ptg: 1e").
+(* ---------- former known class K_XLS_NAME_FORMULA (repaired): a name defined by a constant, by an
+   expression over another name stored AFTER it, and a single reference ---------- *)
+Example xls_name_formulas_nonvacuous :
+  let gs := [ GExt [(0, 0, 0)];
+              GLbl {| lb_flags := 0; lb_chkey := 0; lb_itab := 0; lb_wide := false; lb_name := lit "Seven";
+                      lb_rgce := encode_xls (EInt 7) |};
+              GLbl {| lb_flags := 1; lb_chkey := 0; lb_itab := 0; lb_wide := false; lb_name := lit "Twice";
+                      lb_rgce := encode_xls (EBin 5 (EName CVal 3) (EInt 2)) |};
+              GLbl {| lb_flags := 0; lb_chkey := 0; lb_itab := 0; lb_wide := false; lb_name := lit "Rate";
+                      lb_rgce := encode_xls (ERef3d CRef 0 {| cr_row := 1; cr_col := 1; cr_row_rel := false; cr_col_rel := true |}) |};
+              GLbl {| lb_flags := 0; lb_chkey := 0; lb_itab := 0; lb_wide := false; lb_name := lit "Odd";
+                      lb_rgce := [0x1e; 7; 0; 0x1e; 8; 0] |} ] in
+  forallb wf_grec gs = true /\
+  xls_read_names (fun _ => []) [lit "S"] (map enc_grec gs)
+  = Ok ([(lit "Seven", lit "7"); (lit "Twice", lit "Rate*2"); (lit "Rate", lit "S!B$2");
+         (lit "Odd", lit "Unsupported ptg: 1e")], [(0, 0, 0)]).
 Proof. vm_compute. repeat split. Qed.
 
 (* ---------- known class K_PTGEXP: the member cells of a shared / array formula carry PtgExp; both
